@@ -26,6 +26,8 @@ type SEv struct {
 	GetFail   int
 	// cutmid: the client disappears after J responses of the batch Req got through
 	J int
+	// addni: Server.AddNetworkInstance(NI) on the running server
+	NI string
 }
 
 type SrvGenCfg struct {
@@ -38,6 +40,8 @@ type SrvGenCfg struct {
 	WMalform  int // per-mille malformed operations
 	WFlush    int
 	WGet      int
+	// WAddNI: per-mille chance (per step) that a network instance is added to the running server
+	WAddNI int
 	// GetAfterOps: per-mille chance of a complete Get right after an operations message (and one at the end)
 	GetAfterOps int
 	// BadNI: Flush / Get requests name the empty or an unknown network instance more often
@@ -207,6 +211,11 @@ func GenSrvHistory(r *rand.Rand, cfg *SrvGenCfg) []SEv {
 			sess[next] = &gsess{}
 			evs = append(evs, SEv{Kind: "connect", C: next})
 			next++
+			continue
+		case cfg.WAddNI > 0 && len(p.Known) < 4 && r.IntN(1000) < cfg.WAddNI:
+			ni := []string{"VRF2", "VRF3"}[len(p.Known)%2]
+			evs = append(evs, SEv{Kind: "addni", NI: ni})
+			p.Known = append(p.Known, ni)
 			continue
 		case x < 80+cfg.WFlush:
 			f := &spb.FlushRequest{}
@@ -450,6 +459,9 @@ func RunSrvHistory(name string, cfg *SrvGenCfg, evs []SEv) (*Trace, error) {
 					return
 				}
 				t.Add("srv.connect %d", e.C)
+			case "addni":
+				err := h.S.AddNetworkInstance(e.NI)
+				t.Add("srv.addni %s => %s", S(e.NI), B(err == nil))
 			case "close":
 				if f := h.sess[e.C]; f == nil || f.ended {
 					return
